@@ -26,6 +26,17 @@ shape_5,11,1,1,1
 """
 
 
+# a user-supplied loading list with two items that are larger than the 12 x 10 x 8 container along one axis (a beam, a panel):
+# they can never be packed, but they are part of the instance and of every observation
+CSV_OVERSIZE_TEXT = """Item_Name,Length,Width,Height,Quantity
+shape_1,5,4,3,2
+beam,15,2,2,1
+shape_3,3,3,3,2
+panel,4,13,1,1
+shape_4,4,8,2,1
+"""
+
+
 def _rows(leaves):
     """list of equally long arrays -> list of rows (ints or fixed point)."""
     cols = [jsonify._arr(np.asarray(x)) for x in leaves]
@@ -49,7 +60,8 @@ def _loc(lc):
 class Adapter(EnvAdapter):
     name = "BinPack"
     props = ("C01", "C03", "C04", "C05", "C06", "C08", "C09", "C10", "C11", "C12")
-    gen_heavy = {'r654': (40, 300), 'r457_int': (40, 300)}
+    gen_heavy = {'r654': (40, 300), 'r457_int': (40, 300), 'r62_31_124_s7': (150, 1200), 'r20ft_s7': (60, 1500),
+                 'r124_117_62_s11': (60, 600)}
     probe_cap = 40
     state_overrides = {"container": _space, "ems": _space, "items": _item, "items_location": _loc}
     obs_overrides = {"ems": _space, "items": _item}
@@ -79,9 +91,31 @@ class Adapter(EnvAdapter):
             dict(id="csv", gen="csv", dims=(12, 10, 8), items=9, ems=16, obs=8, split=0, norm=True, reward="dense",
                  episodes=4 if q else 24, max_steps=12, probe_cap=32, policies=["masked", "random", "mostly_masked"]),
         ]
+        # a loading list with items larger than the container (not a generated instance: C10 is not asked of it; the declared
+        # observation bounds are those of items cut out of the container, so C01 is not asked of it either - what IS asked:
+        # such an item is never offered, never packed, and the observation shows its true size / container dimension)
+        cs.append(dict(id="csv_oversize", gen="csv", oversize=True, dims=(12, 10, 8), items=7, ems=16, obs=8, split=0, norm=True,
+                       reward="dense", episodes=3 if q else 16, max_steps=10, probe_cap=24, policies=["masked", "random", "mostly_masked"],
+                       props=["C03", "C04", "C05", "C06", "C08", "C09", "C11", "C12"]))
+        cs.append(dict(id="csv_oversize_int", gen="csv", oversize=True, dims=(12, 10, 8), items=7, ems=16, obs=16, split=0, norm=False,
+                       reward="sparse", episodes=2 if q else 10, max_steps=10, probe_cap=24, policies=["masked", "random"],
+                       props=["C03", "C04", "C05", "C06", "C08", "C09", "C11", "C12"]))
+        # a warehouse floor: the footprint x * y of the container (and of large items) exceeds 2^31 mm^2
+        cs.append(dict(id="r120k", gen="random", dims=(120000, 60000, 8000), items=12, ems=30, obs=30, split=3, norm=False,
+                       reward="dense", episodes=3 if q else 16, max_steps=14, probe_cap=12, policies=["solution", "masked", "random"]))
         # a container whose first dimension is its smallest and whose last is its largest, integer observation
         cs.append(dict(id="r457_int", gen="random", dims=(4, 5, 7), items=8, ems=20, obs=20, split=2, norm=False, reward="sparse",
                        episodes=8 if q else 40, max_steps=12, probe_cap=30, policies=pol))
+        # many identical items per split (split_num_same_items 7 and 11): the cuts are at i * length / n, the last one at the
+        # far wall exactly; axis lengths (31, 62, 117, 124, 5870) for which float32 n * (length / n) < length
+        cs += [
+            dict(id="r62_31_124_s7", gen="random", dims=(62, 31, 124), items=20, ems=40, obs=20, split=7, norm=False, reward="dense",
+                 episodes=2 if q else 10, max_steps=22, probe_cap=12, policies=["solution", "masked"]),
+            dict(id="r20ft_s7", gen="random", dims=None, items=20, ems=40, obs=40, split=7, norm=True, reward="sparse",
+                 episodes=1 if q else 6, max_steps=22, probe_cap=8, policies=["solution", "masked"]),
+            dict(id="r124_117_62_s11", gen="random", dims=(124, 117, 62), items=24, ems=40, obs=20, split=11, norm=True, reward="dense",
+                 episodes=1 if q else 6, max_steps=26, probe_cap=8, policies=["solution", "masked"]),
+        ]
         if not q:
             cs += [
                 dict(id="r20ft_int", gen="random", dims=None, items=20, ems=40, obs=25, split=5, norm=False,
@@ -112,7 +146,7 @@ class Adapter(EnvAdapter):
             os.makedirs(d, exist_ok=True)
             path = os.path.join(d, f"instance_{os.getpid()}.csv")
             with open(path, "w") as f:
-                f.write(CSV_TEXT)
+                f.write(CSV_OVERSIZE_TEXT if cfg.get("oversize") else CSV_TEXT)
             try:
                 return CSVGenerator(path, max_num_ems=cfg["ems"], container_dims=dims)
             finally:
@@ -143,7 +177,8 @@ class Adapter(EnvAdapter):
         dims = list(cfg["dims"]) if cfg["dims"] else list(TWENTY_FOOT_DIMS)
         items = cfg["items"]
         if cfg["gen"] == "csv":
-            items = sum(int(r.split(",")[4]) for r in CSV_TEXT.strip().splitlines()[1:])
+            text = CSV_OVERSIZE_TEXT if cfg.get("oversize") else CSV_TEXT
+            items = sum(int(r.split(",")[4]) for r in text.strip().splitlines()[1:])
         ems = 60 if cfg["gen"] == "toy" else cfg["ems"]
         return {"max_num_items": items, "max_num_ems": ems, "obs_num_ems": cfg["obs"],
                 "normalize": bool(cfg["norm"]), "reward": cfg["reward"], "generator": cfg["gen"],
